@@ -49,9 +49,13 @@ impl<T: Send> BoundedAsyncSender<T> {
   }
 
   pub fn to_sync(self) -> BoundedSyncSender<T> {
+    // Carry the handle's own closed flag over: a converted handle must stay closed.
+    let closed = self.closed.load(Ordering::Relaxed);
     let shared = unsafe { std::ptr::read(&self.shared) };
     mem::forget(self);
-    BoundedSyncSender::from_shared(shared)
+    let converted = BoundedSyncSender::from_shared(shared);
+    converted.closed.store(closed, Ordering::Relaxed);
+    converted
   }
 
   pub fn send(&mut self, item: T) -> SendFuture<'_, T> {
@@ -207,9 +211,13 @@ impl<T: Send> BoundedAsyncReceiver<T> {
     if self.is_registered {
       self.shared.unregister(Role::Recv);
     }
+    // Carry the handle's own closed flag over: a converted handle must stay closed.
+    let closed = self.closed.load(Ordering::Relaxed);
     let shared = unsafe { std::ptr::read(&self.shared) };
     mem::forget(self);
-    BoundedSyncReceiver::from_shared(shared)
+    let converted = BoundedSyncReceiver::from_shared(shared);
+    converted.closed.store(closed, Ordering::Relaxed);
+    converted
   }
 
   pub fn recv(&mut self) -> ReceiveFuture<'_, T> {
